@@ -209,10 +209,10 @@ impl Scenario for SignNode {
     }
     fn runs(&self, tier: Tier) -> u64 {
         match (self.mode, tier) {
-            (Mode::NoPanic, Tier::Quick) => 50_000,
-            (Mode::NoPanic, Tier::Thorough) => 5_000_000,
-            (Mode::Refinement, Tier::Quick) => 50_000,
-            (Mode::Refinement, Tier::Thorough) => 3_000_000,
+            (Mode::NoPanic, Tier::Quick) => 400_000,
+            (Mode::NoPanic, Tier::Thorough) => 40_000_000,
+            (Mode::Refinement, Tier::Quick) => 400_000,
+            (Mode::Refinement, Tier::Thorough) => 40_000_000,
         }
     }
     fn describe(&self) -> &'static str {
@@ -279,8 +279,8 @@ impl Scenario for Flood {
     }
     fn runs(&self, tier: Tier) -> u64 {
         match tier {
-            Tier::Quick => 4,
-            Tier::Thorough => 64,
+            Tier::Quick => 8,
+            Tier::Thorough => 256,
         }
     }
     fn describe(&self) -> &'static str {
@@ -293,6 +293,7 @@ impl Scenario for Flood {
             let mut w = world.lock();
             w.track_states = false;
             w.log_messages = false;
+            w.delivery_cap = 200_000;
         }
         let in_pixels = cx.draw(2) == 1;
         let total = 65_536 + cx.draw(4_465);
